@@ -253,6 +253,21 @@ pub fn decode(tape: &[u32], effort: Effort, no_drop_stale: bool) -> (CrashCase, 
         cache: [1024usize, 1][t.pick(2)],
         inmem: false,
     };
+    // one workload in sixteen: a table of 34-37 single-row row-sets that are never merged (target
+    // row-set size 1), then one DELETE of everything — a statement with more than 32 manifest
+    // operations; only the crash states around manifest appends are examined (the focus keeps the
+    // case within its budget)
+    if t.chance(1, 16) {
+        let cfg = DiskCfg { rowset: 1, ..cfg };
+        let m = 34 + t.pick(4) as i64;
+        let mut stmts = vec![Stmt::Create { t: 0, layout: 3 }];
+        for i in 0..m {
+            stmts.push(Stmt::Insert { t: 0, rows: Rows::Seq { n: 1, start: 100 + i } });
+        }
+        stmts.push(Stmt::Delete { t: 0, key: None });
+        let focus = ["manifest.fsync.post:boundary", "manifest.append:torn-txn", "manifest.append:torn", "manifest.append.post:boundary"].iter().map(|x| x.to_string()).collect();
+        return (CrashCase { cfg, stmts, effort, steered: 0, focus }, 0);
+    }
     let n = t.range(3, 15);
     let mut tabs: [GenTab; 3] = Default::default();
     let mut next_seq = 100i64;
